@@ -33,7 +33,8 @@ EXPECTED_PROBES = ['client_first', 'server_first', 'crossing',
                    'after_bad_close_on_earlier_connection', 'close_write_failed',
                    'close_timeout_disabled', 'two_connections_interleaved',
                    'old_generator_released_mid_handshake',
-                   'reset_after_close_handshake']
+                   'reset_after_close_handshake',
+                   'compressed_message_between_closes']
 
 # every code a peer may send: the RFC 6455 ones, the two registered later
 # (1012 service restart, 1013 try again later), the 3000 and 4000 ranges
@@ -159,6 +160,16 @@ def make_case(family, i, rng, tier):
         case['prelude'] = 'abandoned_held'
         case['release_at'] = rng.choice(['ready', 'text', 'binary', 'ping',
                                          'poll', 'closing', 'closed'])
+    if case['compress'] and rng.random() < 0.7:
+        # the server compresses its messages, one context for the whole
+        # connection; what it sends between the two Close frames repeats
+        # what it sent before the client's close (a back-reference into the
+        # window the client must still hold)
+        case['zframes'] = True
+        data = [it for it in case['pre'] if it['kind'] in ('text', 'binary')]
+        if case.get('mid') is not None and kind == 'client_first' and data:
+            it = dict(rng.choice(data), cuts=[], lenforms=[None], inner=[])
+            case['mid'] = [it] + list(case.get('mid') or [])
     case.update(ST.seg_fields(rng))
     # keep the whole exchange well inside the 30 s close timeout
     case['gaps'] = [rng.choice([0, 0, 1000]) for _ in range(3)]
@@ -176,14 +187,24 @@ def build(case):
     kind = case['kind']
     sc_item = dict(case['sclose'], kind='close')
     app = []
+    dp = peer.DeflatePeer()
+
+    def transform(payload, it):
+        if case.get('zframes') and case.get('compress') and \
+                it.get('kind') in ('text', 'binary'):
+            return dp.compress(payload), 1
+        return payload, 0
+
     if kind == 'client_first':
-        enc = ST.encode_items(case.get('pre') or [])
-        enc2 = ST.encode_items((case.get('mid') or []) + [sc_item])
+        enc = ST.encode_items(case.get('pre') or [], transform=transform)
+        enc2 = ST.encode_items((case.get('mid') or []) + [sc_item],
+                               transform=transform)
         tail = [{'op': 'await_close', 'timeout': 20000000},
                 S.send(bytes(enc2.stream), after=case.get('reply_after', 0))]
         expected = enc.expected + enc2.expected
     else:
-        enc = ST.encode_items((case.get('pre') or []) + [sc_item])
+        enc = ST.encode_items((case.get('pre') or []) + [sc_item],
+                              transform=transform)
         tail = [{'op': 'await_close', 'timeout': 20000000}]
         expected = enc.expected
     if kind == 'client_first' and case.get('eof_after', True) and \
@@ -379,6 +400,8 @@ def _judge(res, case, sc, expected, tr):
                     'expected %r got %r' % (_short(exp), _short(got)))
         elif case.get('mid'):
             res.stats['probe:message_between_closes'] += 1
+            if case.get('zframes') and case.get('compress'):
+                res.stats['probe:compressed_message_between_closes'] += 1
         if not disc or not disc[-1].snap[1]:
             res.bad('C08/%s/not_graceful' % kind, 'events %s' % names[-5:])
         if names[-2:] != ['closed', 'disconnected'] and \
